@@ -149,7 +149,7 @@ func opKind(op string) string {
 		return "MessageReceived"
 	case "d1", "d2":
 		return "PeerDisconnected"
-	case "new":
+	case "new", "ann":
 		return "NotifyNewBlocks"
 	case "del":
 		return "DeleteBlock"
@@ -177,6 +177,10 @@ func (x *seqRun) step(op string) {
 		for r := 0; r < 2; r++ {
 			x.markSqueezed(r, pend[r]+1 > x.cfg.L)
 		}
+	case op == "ann:A":
+		// the (still stored) block A is announced again, e.g. because it was re-added
+		x.w.e.NotifyNewBlocks([]blocks.Block{poolBlks[cA]})
+		x.logf("ann:A: NotifyNewBlocks(A) for the block that is already stored")
 	case strings.HasPrefix(op, "del:"):
 		c := strings.IndexByte(cidNames, op[4])
 		x.w.del(c)
@@ -225,6 +229,10 @@ func (x *seqRun) enabledOps() []string {
 			}
 		case strings.HasPrefix(op, "del:"):
 			if !x.w.store[strings.IndexByte(cidNames, op[4])] {
+				continue
+			}
+		case op == "ann:A":
+			if !x.w.store[cA] {
 				continue
 			}
 		case op == "d1", op == "d2":
@@ -379,6 +387,19 @@ func (x *seqRun) sent() {
 	x.logf("sent: %s handed to the network (MessageSent + Sent)", h)
 	if h.dead {
 		return
+	}
+	// a want that has just been answered is off the peer's want-list: by the block whatever its type,
+	// by a HAVE if it was a want-have
+	srv := x.w.ledger(h.role)
+	for _, c := range h.blocks {
+		if en, ok := srv[c]; ok {
+			x.fail(eng.V("wantlist-stale-entry", "sent", fmt.Sprintf("block %s was sent to p%d (MessageSent) but the want stays on the server's want-list %s", cname(c), h.role+1, fmtLedger(srv)), "stale_because", "answered-with-block", "want_have", fmt.Sprint(en.have)))
+		}
+	}
+	for _, c := range h.haves {
+		if en, ok := srv[c]; ok && en.have {
+			x.fail(eng.V("wantlist-stale-entry", "sent", fmt.Sprintf("HAVE %s was sent to p%d (MessageSent) but the want-have stays on the server's want-list %s", cname(c), h.role+1, fmtLedger(srv)), "stale_because", "answered-with-have", "want_have", "true"))
+		}
 	}
 	for _, c := range h.blocks {
 		if _, ok := x.asked[h.role][c]; ok {
